@@ -76,11 +76,13 @@ def static_spaces(tier):
         sp.append(("c:2pos,n=4,L=3,distinct", H(4, 4), ["xy"], (0,), 3, 3, True))
         sp.append(("d:shapes,n<=2,L<=2", H(0, 2), ["x", "xy", "xy?", "x*k", "x*k?"], (0,), 1, 2, False))
         sp.append(("d3:shapes,n<=1,L=3", H(0, 1), ["x", "xy", "xy?", "x*k", "x*k?"], (0,), 3, 3, False))
+        sp.append(("z:all-optional shapes (zero-argument calls),n<=2,L<=3,prio", H(0, 2), ["x?", "x?y?", "x"], (0, 1), 1, 3, False))
     else:
         sp.append(("A:1pos,n<=5,L<=4,prio", H(0, 5), ["x"], (0, 1), 1, 4, False))
         sp.append(("B:2pos,n<=3,L<=3,prio", H(0, 3), ["xy"], (0, 1), 1, 3, False))
         sp.append(("C:2pos,n=4,L<=3,prio", H(4, 4), ["xy"], (0, 1), 1, 3, False))
         sp.append(("D:shapes,n<=2,L<=3", H(0, 2), ["x", "xy", "xy?", "x*k", "x*k?"], (0,), 1, 3, False))
+        sp.append(("Z:all-optional shapes (zero-argument calls),n<=3,L<=3,prio", H(0, 3), ["x?", "x?y?", "x", "x*k?"], (0, 1), 1, 3, False))
         sp.append(("E:3pos+kw,n<=2,L<=2", H(0, 2), ["xyz", "xy*k", "xy"], (0, 1), 1, 2, False))
         sp.append(("E3:3pos+kw,n<=1,L=3", H(0, 1), ["xyz", "xy*k", "xy"], (0,), 3, 3, False))
         sp.append(("F:3pos,n=3,L<=2", H(3, 3), ["xyz"], (0, 1), 1, 2, False))
